@@ -616,12 +616,14 @@ def process_fn(src: str, src_file: str, it: rustscan.Item, dirs: List[Directive]
     # --- D7 (expression form): `&place` -> `&mut place` where the code reaches interior-mutable data through a shared
     #     borrow (same sequential-scope assumption as the receiver rewrite; nothing is assumed about the expression)
     for d in dirs:
-        if d.kind == 'mutref':
+        if d.kind in ('mutref', 'mutref?'):
             pat = d.arg.strip('"')
             if not pat.startswith('&') or pat.startswith('&mut'):
                 raise Undecided('mutref: pattern must start with `&`')
             body_txt = src[st[body_open_i].end:st[body_close_i].start]
             k = body_txt.find(pat)
+            if k < 0 and d.kind == 'mutref?':
+                continue
             if k < 0 or body_txt.find(pat, k + 1) >= 0:
                 raise Undecided('lost anchor: expression %r in %s (%s)' % (pat, info.fn, 'absent' if k < 0 else 'ambiguous'))
             a = st[body_open_i].end + k
